@@ -65,6 +65,7 @@ func main() {
 	pkgs := flag.String("pkgs", "", "comma separated package dirs relative to root")
 	goCmd := flag.String("go", "go", "go command")
 	out := flag.String("report", "", "write the JSON report here")
+	varPkgs := flag.String("varpkgs", "", "comma separated package dirs instrumented for synchronisation operations and package-level variables only (no struct fields)")
 	hb := flag.Bool("hb", true, "instrument field / package-variable accesses for the happens-before monitor")
 	flag.Parse()
 	if *root == "" || *pkgs == "" {
@@ -72,6 +73,13 @@ func main() {
 	}
 	rootDir = *root
 	var patterns []string
+	varOnly := map[string]bool{}
+	if *varPkgs != "" {
+		for _, p := range strings.Split(*varPkgs, ",") {
+			varOnly[p] = true
+		}
+		*pkgs = *pkgs + "," + *varPkgs
+	}
 	for _, p := range strings.Split(*pkgs, ",") {
 		patterns = append(patterns, "./"+p)
 	}
@@ -100,6 +108,7 @@ func main() {
 	}
 	absRoot, _ := filepath.Abs(*root)
 	targets := map[string]listPkg{}
+	fieldTargets = map[string]bool{}
 	for _, p := range all {
 		rel, err := filepath.Rel(absRoot, p.Dir)
 		if err != nil {
@@ -108,6 +117,9 @@ func main() {
 		for _, want := range strings.Split(*pkgs, ",") {
 			if filepath.ToSlash(rel) == want {
 				targets[p.ImportPath] = p
+				if !varOnly[want] {
+					fieldTargets[p.ImportPath] = true
+				}
 				if modPath == "" {
 					modPath = strings.TrimSuffix(p.ImportPath, "/"+want)
 				}
@@ -137,6 +149,10 @@ func main() {
 		}
 	}
 }
+
+// fieldTargets: packages whose struct fields are monitored (the others in the
+// target set get synchronisation operations and package-level variables only).
+var fieldTargets map[string]bool
 
 type rw struct {
 	fset    *token.FileSet
@@ -1018,7 +1034,7 @@ func (r *rw) selector(x *ast.SelectorExpr, c ctxKind) ast.Expr {
 		return x
 	}
 	f, ok := sel.Obj().(*types.Var)
-	if !ok || f.Pkg() == nil || !r.targets[f.Pkg().Path()] || syncish(f.Type()) {
+	if !ok || f.Pkg() == nil || !fieldTargets[f.Pkg().Path()] || syncish(f.Type()) {
 		return x
 	}
 	return r.wrapAccess(x, c == ctxWrite, pos)
